@@ -904,7 +904,7 @@ FIELD_NAMES = ["c", "u", "v", "phi", "a", "b", "s", "rho", "c1", "n_A"]
 
 
 @st.composite
-def evaluate_cases(draw):
+def evaluate_cases(draw, jit=False):
     spec = draw(GG.grids(max_cells=5, max_total=48, len_lo=1e-2, len_hi=50.0, offset_mag=50.0))
     cls = spec["cls"]
     axes = AXES[cls][:len(spec["shape"])]
@@ -920,7 +920,9 @@ def evaluate_cases(draw):
     if use_coords:
         vs += [{"name": ax, "lo": b[0], "hi": b[1], "n": 0} for ax, b in zip(axes, bounds)]
     cs = draw(G.uconsts())
-    ast = draw(G.asts(vs, cs, profile=G.PROFILE_FIELDS, max_depth=4, budget=16, cmp_top=False))
+    # erf (scipy ufunc) cannot be compiled by numba: numpy route only
+    prof = dict(G.PROFILE_FIELDS, erf=False) if jit else G.PROFILE_FIELDS
+    ast = draw(G.asts(vs, cs, profile=prof, max_depth=4, budget=16, cmp_top=False))
     return {"grid": spec, "fields": fields, "vars": vs, "consts": cs, "ast": ast,
             "use_coords": use_coords, "as_collection": draw(st.booleans()),
             "shape_seed": draw(st.integers(0, 2**31)), "label": draw(st.sampled_from([None, "res", "ρ"]))}
@@ -1038,6 +1040,13 @@ SUBCHECKS = [
                  lambda c: not (c["route"] == "single_arg" and any(v["n"] for v in c["vars"]))),
              check=check_value_numba, mode="jit", budget={"quick": 200, "thorough": 6000},
              shards={"quick": 3, "thorough": 12}, rule=NT_VALUE),
+    SubCheck("value_numba_nojit",
+             strategy=lambda: scalar_cases(G.PROFILE_FULL, routes=("get_function", "get_function", "single_arg"),
+                                           indexed=True, layouts=("flat", "flat", "scalar", "mixed", "outer")).filter(
+                 lambda c: not (c["route"] == "single_arg" and any(v["n"] for v in c["vars"]))),
+             check=check_value_numba, mode="nojit", budget={"quick": 300, "thorough": 10000},
+             shards={"quick": 1, "thorough": 4},
+             rule=NT_VALUE + " (numba backend's code generation executed with NUMBA_DISABLE_JIT=1: breadth)"),
     SubCheck("single_arg",
              strategy=lambda: scalar_cases(G.PROFILE_NUMPY, indexed=False, routes=("single_arg",),
                                            layouts=("flat", "scalar", "mixed", "outer")),
@@ -1059,7 +1068,7 @@ SUBCHECKS = [
     SubCheck("parse_number", strategy=number_cases, check=check_number, mode="pure",
              budget={"quick": 1500, "thorough": 30000}, shards={"quick": 1, "thorough": 2},
              rule="non-trivial = depth >= 2 with a non-commutative operator"),
-    SubCheck("evaluate_fields_jit", strategy=evaluate_cases, check=check_evaluate_jit, mode="jit",
+    SubCheck("evaluate_fields_jit", strategy=lambda: evaluate_cases(jit=True), check=check_evaluate_jit, mode="jit",
              budget={"quick": 24, "thorough": 500}, shards={"quick": 1, "thorough": 2},
              rule="non-trivial = depth >= 2 depending on a field"),
     SubCheck("mod_in_negative_product", strategy=known_mod_cases, check=check_known_mod, mode="jit",
